@@ -488,40 +488,64 @@ def write_programs(progs, path):
             f.write("\n".join(p["lines"]) + "\n")
 
 
-def run_harness(harness, progfile, dumpfile, timeout):
-    stub = WORK / "bin"
-    stub.mkdir(parents=True, exist_ok=True)
-    dot = stub / "dot"       # Circuit::postprocess calls `dot` for every rejected design
-    if not dot.exists():
-        dot.write_text("#!/bin/sh\nexit 0\n"); dot.chmod(0o755)
-    rundir = WORK / "run"
-    rundir.mkdir(parents=True, exist_ok=True)
-    rc, out = V.run([harness, str(progfile), str(dumpfile)], timeout=timeout, cwd=str(rundir),
-                    env={"PATH": f"{stub}:/usr/bin:/bin"})
-    return rc, out
+def run_stage(cmds, timeout):
+    """run several commands concurrently; returns list of (rc, output)"""
+    import subprocess
+    procs = []
+    for cmd, cwd, env in cmds:
+        e = dict(os.environ); e.update(env or {})
+        procs.append(subprocess.Popen(cmd, cwd=cwd, env=e, stdout=subprocess.PIPE, stderr=subprocess.STDOUT, text=True))
+    res = []
+    deadline = time.time() + timeout
+    for p in procs:
+        try:
+            out, _ = p.communicate(timeout=max(1, deadline - time.time()))
+            res.append((p.returncode, out))
+        except subprocess.TimeoutExpired:
+            p.kill(); out, _ = p.communicate()
+            res.append((124, (out or "") + "\n[timeout]"))
+    return res
 
 
-def evaluate(progs, harness, driver, tagdir, timeout=900, with_model=True):
-    """Runs programs through harness (+ driver) and compares.  Returns (stats, problems).
+def evaluate(progs, harness, driver, tagdir, timeout=900, with_model=True, jobs=1):
+    """Runs programs through harness (+ driver) and compares.  Returns (stats, problems, dumps).
     problems: list of dicts {design, kind, detail, concrete(bool)}"""
     d = WORK / tagdir
     d.mkdir(parents=True, exist_ok=True)
-    pf, df = d / "programs.txt", d / "dump.txt"
-    write_programs(progs, pf)
-    rc, out = run_harness(harness, pf, df, timeout)
-    if rc != 0 or not df.exists():
-        V.infra_error(f"harness run failed rc={rc}\n{out[-2000:]}")
-    dumps, berrs = parse_dump(df)
+    stub = WORK / "bin"
+    stub.mkdir(parents=True, exist_ok=True)
+    dot = stub / "dot"       # Circuit::postprocess calls `dot` twice for every rejected design
+    if not dot.exists():
+        dot.write_text("#!/bin/sh\nexit 0\n"); dot.chmod(0o755)
+    jobs = max(1, min(jobs, len(progs)))
+    chunks = [progs[j::jobs] for j in range(jobs)]
+    cmds = []
+    for j, ch in enumerate(chunks):
+        write_programs(ch, d / f"programs{j}.txt")
+        rundir = d / f"run{j}"
+        rundir.mkdir(parents=True, exist_ok=True)
+        if (d / f"dump{j}.txt").exists():
+            (d / f"dump{j}.txt").unlink()
+        cmds.append(([harness, str(d / f"programs{j}.txt"), str(d / f"dump{j}.txt")], str(rundir), {"PATH": f"{stub}:/usr/bin:/bin"}))
+    for j, (rc, out) in enumerate(run_stage(cmds, timeout)):
+        if rc != 0 or not (d / f"dump{j}.txt").exists():
+            V.infra_error(f"harness run failed rc={rc}\n{out[-2000:]}")
+    dumps, berrs = {}, []
+    for j in range(jobs):
+        dd, be = parse_dump(d / f"dump{j}.txt")
+        dumps.update(dd); berrs += be
     model = {}
     if with_model:
         # the extracted code is not tail recursive (unary fuel, list append): give it a deep stack
-        rc, mout = V.run(["bash", "-c", 'ulimit -s unlimited 2>/dev/null || ulimit -s 4000000; exec "$0" "$1"', driver, str(df)], timeout=timeout)
-        if rc != 0:
-            V.infra_error(f"model driver failed rc={rc}\n{mout[-2000:]}")
-        for line in mout.splitlines():
-            t = line.split()
-            if len(t) >= 3 and t[0] in ("CHK", "RES"):
-                model[(t[0], t[1], t[2])] = line
+        cmds = [(["bash", "-c", 'ulimit -s unlimited 2>/dev/null || ulimit -s 4000000; exec "$0" "$1"', driver, str(d / f"dump{j}.txt")], None, None)
+                for j in range(jobs)]
+        for rc, mout in run_stage(cmds, timeout):
+            if rc != 0:
+                V.infra_error(f"model driver failed rc={rc}\n{mout[-2000:]}")
+            for line in mout.splitlines():
+                t = line.split()
+                if len(t) >= 3 and t[0] in ("CHK", "RES"):
+                    model[(t[0], t[1], t[2])] = line
     byname = {p["name"]: p for p in progs}
     problems = []
     st = dict(designs=0, accept=0, reject=0, other=0, builderror=0, pre_post_differ=0,
@@ -709,7 +733,7 @@ def main():
         rp = json.loads(Path(argv[argv.index("--replay") + 1]).read_text())
         progs = [dict(name="replay", lines=["design replay"] + rp["program"][1:], crossings=1, flavor="replay")]
     else:
-        count = 400 if tier == "quick" else 2400
+        count = 400 if tier == "quick" else 8000
         # C12_NO_CORPUS=1 is a test knob (used to confirm that the generated designs alone catch a mutation)
         progs = ([] if os.environ.get("C12_NO_CORPUS") else corpus_programs()) + gen_batch(seed, count, tier)
 
@@ -720,7 +744,8 @@ def main():
         broken.append("extracted model no longer builds: " + V.last_model_log[-400:])
 
     t0 = time.time()
-    st, problems, dumps = evaluate(progs, harness, driver, "main", timeout=1500, with_model=driver is not None)
+    st, problems, dumps = evaluate(progs, harness, driver, "main", timeout=1500, with_model=driver is not None,
+                                   jobs=(2 if tier == "quick" else 10))
     # corpus expectations (accept / reject as recorded with the case)
     for p in progs:
         if p.get("expect"):
@@ -777,7 +802,7 @@ def main():
         while not concrete and time.time() < deadline:
             more = gen_batch(extra_seed, 150, tier, tag="x")
             extra_seed += 1
-            _, pr, _ = evaluate(more, harness, None, "search", timeout=300, with_model=False)
+            _, pr, _ = evaluate(more, harness, None, "search", timeout=300, with_model=False, jobs=4)
             for q in more:
                 byname[q["name"]] = q
             concrete = [p for p in pr if p["concrete"] and not p.get("soft")]
